@@ -25,6 +25,7 @@ pub enum Case {
 const ST_PARAMS: u32 = 50;
 /// always-present stratum: custom identifier list of n + 65536 entries
 const ST_WRAP: u32 = 102;
+const ST_LARGE_T: u32 = 103;
 const ST_HUGE: u32 = 60;
 
 impl Property for C06 {
@@ -62,6 +63,13 @@ impl Property for C06 {
         let mut v: Vec<(u32, u32)> = (0..12).map(|s| (s, per)).collect();
         v.push((ST_PARAMS, tier.pick(40, 400)));
         v.push((ST_WRAP, tier.pick(2, 8)));
+        // large thresholds: 16, 17, 33, 64, 65 coefficients
+        v.push((ST_LARGE_T, match (tier, suite.slow()) {
+            (Tier::Quick, false) => 4,
+            (Tier::Quick, true) => 1,
+            (Tier::Thorough, false) => 20,
+            (Tier::Thorough, true) => 4,
+        }));
         if tier == Tier::Thorough && !suite.slow() {
             v.push((ST_HUGE, 1));
         }
@@ -73,6 +81,12 @@ impl Property for C06 {
     fn strategy(&self, suite: SuiteId, tier: Tier, stratum: u32) -> BoxedStrategy<Case> {
         match stratum {
             ST_HUGE => (any::<bool>(), any::<u64>()).prop_map(|(split, seed)| Case::Huge { split, seed }).boxed(),
+            ST_LARGE_T => {
+                let ts: Vec<u16> = if suite.slow() { vec![16, 17, 33] } else { vec![16, 17, 33, 64, 65] };
+                (proptest::sample::select(ts), 0u16..3, idspec_strategy(None), any::<bool>(), any::<u64>())
+                    .prop_map(|(t, extra, ids, split, seed)| Case::Honest { shape: Shape { n: t + extra, t }, ids, split, custom_default: true, seed })
+                    .boxed()
+            }
             ST_WRAP => (2u16..8, idspec_strategy(None), any::<bool>(), any::<u64>()).prop_map(|(n, ids, split, seed)| Case::Params { n, t: 2, kind: 10, ids, split, seed }).boxed(),
             ST_PARAMS => (0u16..8, 0u16..8, 0u8..11, idspec_strategy(None), any::<bool>(), any::<u64>())
                 .prop_map(|(n, t, kind, ids, split, seed)| Case::Params { n, t, kind, ids, split, seed })
@@ -112,6 +126,7 @@ impl Property for C06 {
             ("params:duplicate-ids".into(), 5),
             ("params:wrong-id-count".into(), 5),
             ("params:wrong-id-count-mod-65536".into(), 2),
+            ("t>=16".into(), 6),
         ]
     }
     fn check(&self, suite: SuiteId, case: &Case, ctx: &mut Ctx) -> CheckResult {
@@ -154,6 +169,8 @@ fn honest<C: Suite>(shape: Shape, ids: IdSpec, split: bool, custom_default: bool
     // Default style: either IdentifierList::Default or the same identifiers passed as a custom list
     let use_default = ids.style == IdStyle::Default && !custom_default;
     let list = if use_default { IdentifierList::Default } else { IdentifierList::Custom(&idv) };
+    // the ciphersuite crate's own keys::generate_with_dealer / split / reconstruct give what the generic functions give
+    crate::wrappers::differential::<C>(ctx, "C06", crate::wrappers::Part::Dealer, seed)?;
     let (r, sk) = call::<C>(shape.n, shape.t, list, split, seed);
     let desc = format!("n={n} t={t} ids={}{} entry={}", ids.style.name(), if use_default { "" } else { "(custom)" }, if split { "split" } else { "generate" });
     let nontrivial = !matches!((n, t), (5, 3) | (3, 2)) || !use_default;
@@ -161,6 +178,9 @@ fn honest<C: Suite>(shape: Shape, ids: IdSpec, split: bool, custom_default: bool
     ctx.label(if split { "entry:split" } else { "entry:generate" });
     if t >= 4 {
         ctx.label("degree>=3");
+    }
+    if t >= 16 {
+        ctx.label("t>=16");
     }
     let (shares, pubkeys) = match r {
         Ok(x) => x,
@@ -216,6 +236,30 @@ fn honest<C: Suite>(shape: Shape, ids: IdSpec, split: bool, custom_default: bool
     }
     let comm = commitment.unwrap_or_default();
     ensure!(ctx, comm.first().copied() == Some(vk.to_element()) || C::SID.taproot(), "C06/group-key-not-constant-term", "group key != commitment to the constant term ({desc})");
+
+    // the helpers that rebuild public key material from the PUBLISHED commitment agree with what the dealer handed out
+    // (Taproot: the dealer output is post-processed, so the plain commitment describes the untweaked key)
+    if !C::SID.taproot() && n <= 300 {
+        let published = shares[&sorted[0]].commitment();
+        let idset: std::collections::BTreeSet<Id<C>> = sorted.iter().copied().collect();
+        ctx.label("from-commitment");
+        match frost::keys::PublicKeyPackage::<C>::from_commitment(&idset, published) {
+            Ok(p2) => {
+                ensure!(ctx, p2.verifying_key() == pubkeys.verifying_key() && p2.verifying_shares() == pubkeys.verifying_shares(), "C06/from-commitment-differs", "PublicKeyPackage::from_commitment over the published commitment differs from the dealer's public key package ({desc})");
+                ensure!(ctx, p2.min_signers() == Some(shape.t), "C06/threshold-field", "PublicKeyPackage::from_commitment records min_signers {:?}, expected Some({t}) ({desc})", p2.min_signers());
+            }
+            Err(e) => ctx.fail("C06/from-commitment-differs", format!("PublicKeyPackage::from_commitment failed on the published commitment: {e:?} ({desc})"))?,
+        }
+        match frost::VerifyingKey::<C>::from_commitment(published) {
+            Ok(k) => ensure!(ctx, k == vk, "C06/from-commitment-differs", "VerifyingKey::from_commitment differs from the group key ({desc})"),
+            Err(e) => ctx.fail("C06/from-commitment-differs", format!("VerifyingKey::from_commitment failed: {e:?} ({desc})"))?,
+        }
+        for p in sample_pos.iter().take(8) {
+            let id = sorted[*p];
+            let v = frost::keys::VerifyingShare::<C>::from_commitment(id, published);
+            ensure!(ctx, Some(&v) == pubkeys.verifying_shares().get(&id), "C06/from-commitment-differs", "VerifyingShare::from_commitment of {} differs from the public key package entry ({desc})", id_hex::<C>(&id));
+        }
+    }
 
     // one polynomial of degree exactly t-1 with value key at zero
     let pick = |rng: &mut Sm, k: usize| -> Vec<Id<C>> {
